@@ -45,6 +45,7 @@ pub fn registry() -> Vec<PartEntry> {
         part!("C01", uni::C01Uni),
         part!("C02", containers::Rings),
         part!("C02", uni::C02Uni),
+        part!("C02", free::RingsFree),
         part!("C03", uni::C03Multi),
         part!("C04", uni::C04Uni),
         part!("C04", uni::C04Multi),
@@ -74,6 +75,7 @@ pub fn registry() -> Vec<PartEntry> {
         part!("C16", seq::C16Seq),
         part!("C17", life::C17Churn),
         part!("C18", containers::Standalone),
+        part!("C18", free::StandaloneFree),
         part!("C19", alloc::C19Average),
         part!("C20", life::C20Suspended),
     ]
